@@ -208,14 +208,14 @@ def run(prop, tier, seed):
             if st_self is None:
                 st_self = selftest(prop, r['ndjson'], workdir)
             os.remove(r['ndjson'])
-        if prop in ('C05', 'C10', 'C16', 'C18'):
+        if prop in ('C03', 'C05', 'C10', 'C16', 'C18'):
             nd, nscen = S.run_scenarios('C16' if prop == 'C18' else prop, tier, seed, workdir)
             rej, vst = S.validate(nd, PROPSETS[prop])
             job = {'wcfg': {'scenario': prop}, 'cfgline': {}}
             nrej = S.judge(prop, rej, nd, job, v)
             cov['configs'].append({'name': 'scenarios-' + prop, 'executions': nscen, 'trace_lines': vst.get('distinct', 1) - 1,
                                    'rejected_lines': nrej,
-                                   'what': 'C05: configurations x session histories x peer OPEN variants + AS_PATH mode probe; '
+                                   'what': 'C03: random schedules with a resolution of 1/3000 s around the keepalive / hold instants (hold 0,3,4,10,45,90,180 x peer hold); C05: configurations x session histories x peer OPEN variants + AS_PATH mode probe; '
                                            'C10: structure-aware and mutation fuzz (seeds: every bytes literal of the unit tests) in OpenSent/OpenConfirm/Established + known-good probe'})
             cov['traces_validated_against_impl'] += nscen
             cov['lines_validated'] += vst.get('distinct', 1) - 1
